@@ -216,7 +216,9 @@ def rule_F2b(ctx):
     ctx.floor("F2b", "quarter-table writes", count, 4)
 
 
-def rule_F2c_F2d(ctx):
+def rule_F2c_F2d(ctx, only_quarter_tables=False):
+    """only_quarter_tables: restrict to the methods that subscript the quarter tables and skip the point-link
+    specification (for C02, which depends on the quarter table but not on the point list)."""
     ctx.rule("F2c", "every computed subscript of _points/_quarter_times/_quarter_durations is within [0, len-1] in every "
                     "order-type cell of (index, len) — abstract interpretation over representatives len=0..5, all "
                     "searchsorted results, insert/delete length shifts, short-circuit guards")
@@ -236,17 +238,19 @@ def rule_F2c_F2d(ctx):
             for n in own_nodes(m.node):
                 if isinstance(n, ast.Subscript) and not isinstance(n.slice, ast.Slice):
                     v = n.value
-                    if isinstance(v, ast.Attribute) and v.attr in ("_points", "_quarter_times", "_quarter_durations"):
+                    if isinstance(v, ast.Attribute) and v.attr in (("_quarter_times", "_quarter_durations") if only_quarter_tables else
+                                                                   ("_points", "_quarter_times", "_quarter_durations")):
                         uses = True
                     elif isinstance(v, ast.Name):
                         # alias of a tracked array?
                         for a in own_nodes(m.node):
                             if isinstance(a, ast.Assign) and len(a.targets) == 1 and isinstance(a.targets[0], ast.Name) \
-                                    and a.targets[0].id == v.id and norm(a.value) in ARRAYS:
+                                    and a.targets[0].id == v.id and norm(a.value) in ARRAYS and \
+                                    (not only_quarter_tables or "quarter" in norm(a.value)):
                                 uses = True
             if uses:
                 targets.append(m)
-    ctx.floor("F2c", "Part methods with computed subscripts of the timeline arrays", len(targets), 6)
+    ctx.floor("F2c", "Part methods with computed subscripts of the timeline arrays", len(targets), 2 if only_quarter_tables else 6)
     total_paths = total_subs = 0
     cells_seen = set()
     for m in sorted(targets, key=lambda x: x.qname):
@@ -287,7 +291,7 @@ def rule_F2c_F2d(ctx):
                       construct="quarter-tables-unequal-length",
                       msg="some path inserts into one of _quarter_times/_quarter_durations but not the other")
         # link completeness
-        if m is ins or m is dele:
+        if (m is ins or m is dele) and not only_quarter_tables:
             _link_spec(ctx, m, results, "insert" if m is ins else "delete", cells_seen)
     ctx.extra["F2c_paths_explored"] = total_paths
     ctx.extra["F2c_subscript_evaluations"] = total_subs
